@@ -977,6 +977,12 @@ public:
 
         for (; (input_ptr_ < local_input_end) && more_;)
         {
+            if (JSONCONS_UNLIKELY(ec))
+            {
+                // an error reported by the visitor (e.g. an encoder that needs lengths) ends the parse
+                more_ = false;
+                return;
+            }
             CharT curr_char = *input_ptr_;
 
             switch (state_) 
